@@ -10,6 +10,7 @@ import (
 	"runtime/debug"
 	"strconv"
 	"strings"
+	"sync"
 	"testing"
 
 	"pgregory.net/rapid"
@@ -170,3 +171,31 @@ func trimStack(b []byte) string {
 }
 
 func debugStack() []byte { return debug.Stack() }
+
+// retained is a ring of result strings handed out by the library together with independent
+// copies: a result that aliases reusable memory is correct when returned and changes later, so
+// value checks made right after the call cannot see it. retainCheck stores s and reports the
+// first earlier result that no longer equals its copy.
+var retained struct {
+	mu    sync.Mutex
+	got   [128]string
+	clone [128]string
+	what  [128]string
+	n     int
+}
+
+func retainCheck(s, what string) error {
+	retained.mu.Lock()
+	defer retained.mu.Unlock()
+	for i := 0; i < len(retained.got) && i < retained.n; i++ {
+		if retained.got[i] != retained.clone[i] {
+			g, c, w := retained.got[i], retained.clone[i], retained.what[i]
+			retained.got[i], retained.clone[i] = "", "" // report once
+			return fmt.Errorf("a result returned earlier (%s) changed after it was returned: %q -> %q", w, c, g)
+		}
+	}
+	k := retained.n % len(retained.got)
+	retained.got[k], retained.clone[k], retained.what[k] = s, strings.Clone(s), what
+	retained.n++
+	return nil
+}
